@@ -1300,3 +1300,8 @@ class Last""", """                    rule.trigger(implication)
 
 
 class Last"""), "O-all/First.activate")
+mutant("c14-split-every-colon", "C14", (I, 'parts = Op.strip_comments(fll).split(":", maxsplit=1)', 'parts = Op.strip_comments(fll).split(":")'), "T13/FllImporter.extract_key_value")
+mutant("c14-last-block-dropped", "C14", (I, """        if component and block:
+            self._process(component, block, engine)
+        return engine""", """        return engine"""), "T13/FllImporter.engine/flush")
+mutant("c13-clear-keeps-value", ["C13", "C12"], (V, "        self.previous_value = nan\n        self.value = nan\n\n    def fuzzy_value", "        self.previous_value = nan\n\n    def fuzzy_value"), "OutputVariable.clear/value")
